@@ -92,7 +92,7 @@ def verify_weigher(ex, contract, timeout_ms=30000):
                 isd = isinstance(w, DictObjV)
                 ob("sets-weights", isd)
                 if isd:
-                    src = st.ghost.get("ws_src")
+                    src = z3.Function("specified_weights", dsl.Ref, dsl.Ref)(self.term)
                     if src is not None:
                         ob("copy-not-alias", w.ref != src)
                         ob("same-content-as-specified", And(dict_has(F, w.ref, x) == dict_has(E, src, x), Implies(dict_has(E, src, x), value_same(dict_get(F, w.ref, x), dict_get(E, src, x)))))
@@ -124,7 +124,7 @@ def verify_weigher(ex, contract, timeout_ms=30000):
 def contracts():
     T = [("target", "ref:StrategyBase")]
     out = []
-    for cls in ("WeighEqually", "ScaleWeights", "WeighTarget"):
+    for cls in ("WeighEqually", "ScaleWeights", "WeighTarget", "WeighSpecified"):
         out.append((RelationalContract("bt.algos.%s.__call__" % cls, T, None, self_cls=cls, note="temp['weights'] == documented weights"), verify_weigher))
     out.append((RelationalContract("bt.algos.LimitDeltas.__call__", T, None, self_cls="LimitDeltas", note="every key's change is capped at its limit; keys within their limit untouched"), verify_limit_deltas_proxy))
     return out
